@@ -123,8 +123,9 @@ impl Stats {
     pub fn inc(&mut self, key: &str) {
         self.add(key, 1)
     }
-    pub fn sample(&mut self, v: Value) {
+    pub fn sample(&mut self, mut v: Value) {
         if self.samples.len() < 6 {
+            shorten(&mut v);
             self.samples.push(v);
         }
     }
@@ -143,6 +144,19 @@ impl Stats {
         self.notes.extend(o.notes);
         self.blobs.extend(o.blobs);
         self.log_hash = hash_u64(self.log_hash, o.log_hash);
+    }
+}
+
+/// keep evidence samples readable: long strings (hex of keys, 1 MiB messages) are abbreviated
+pub fn shorten(v: &mut Value) {
+    match v {
+        Value::String(s) if s.len() > 160 => {
+            let head: String = s.chars().take(96).collect();
+            *s = format!("{}… ({} chars)", head, s.len());
+        }
+        Value::Array(a) => a.iter_mut().for_each(shorten),
+        Value::Object(m) => m.values_mut().for_each(shorten),
+        _ => {}
     }
 }
 
